@@ -45,12 +45,33 @@ pub fn gen(tier: &str, seed: u64, emit: &mut dyn FnMut(String)) {
             for dmg in damages {
                 let mut bad = sect.clone();
                 for b in dmg.iter() { bad[b / 8] ^= 0x80 >> (b % 8); }
+                let bad = bad;
                 let mut m = Mux::new();
                 m.psi(0, &pat0, 0, 0, &mut rng);
                 m.psi(pmt_pid, &pmt0, 0, if multi { 1 } else { 0 }, &mut rng);
                 let pid = if which == 0 { 0 } else { pmt_pid };
                 m.psi(pid, &bad, 0, if multi { rng.below(2) } else { 0 }, &mut rng);
                 // probes: every PID of interest, twice
+                for p in [pmt_pid, new_pid, pids[2], pids[3], *pids.last().unwrap()] { for _ in 0..2 {
+                    let pl = rng.bytes(184); let cc = rng.below(16) as u8; m.pkts.push(ts_packet(p, false, cc, false, 0, None, &pl)); } }
+                emit(dmx_case(0, "", &[m.bytes()]));
+            }
+        }
+        // (c) the table that WAS applied is re-transmitted damaged: the version bits changed (so that it is not taken
+        // for a repetition) and body bytes changed, while the CRC_32 field still holds the value of the accepted copy
+        for (which, sect) in [(0u8, &pat0), (1u8, &pmt0)] {
+            for _ in 0..(if big { 40 } else { 12 }) {
+                let mut bad = sect.clone();
+                bad[5] ^= (1 + rng.below(31) as u8) << 1;                                    // another version_number
+                let body_end = bad.len() - 4;
+                for _ in 0..rng.below(4) { let k = 8 + rng.below((body_end - 8) as u64) as usize; bad[k] ^= 1 << rng.below(8); }
+                if crc32_mpeg(&bad) == 0 { continue; }
+                let mut m = Mux::new();
+                m.psi(0, &pat0, 0, 0, &mut rng);
+                m.psi(pmt_pid, &pmt0, 0, if multi { 1 } else { 0 }, &mut rng);
+                for _ in 0..rng.below(3) { let p = *rng.pick(&pids); let pl = rng.bytes(184); let cc = rng.below(16) as u8; m.pkts.push(ts_packet(p, false, cc, false, 0, None, &pl)); }
+                let pid = if which == 0 { 0 } else { pmt_pid };
+                m.psi(pid, &bad, 0, if multi { rng.below(2) } else { 0 }, &mut rng);
                 for p in [pmt_pid, new_pid, pids[2], pids[3], *pids.last().unwrap()] { for _ in 0..2 {
                     let pl = rng.bytes(184); let cc = rng.below(16) as u8; m.pkts.push(ts_packet(p, false, cc, false, 0, None, &pl)); } }
                 emit(dmx_case(0, "", &[m.bytes()]));
